@@ -522,9 +522,16 @@ def copyexec(run, fx):
                         wrote = {k - lo for (_, k) in it.written}
                         if n == 0 and wrote:
                             zero_writes = True
-                        lim = ((n + 7) // 8) * 8 if n else 8
+                        # the bound lz4::decompress tests before it calls overrun_copy is align(n), computed by align() itself
+                        afn = fx.fns_named('(anonymous namespace)::align')
+                        if not afn:
+                            raise AnalysisBroken('align() not found')
+                        lim = O.Interp(fx).call(afn[0], None, [n if n else 1])
+                        if not isinstance(lim, int):
+                            raise AnalysisBroken('align(%d) is not a number' % n)
                         if any(k < 0 or k >= lim for k in wrote):
-                            prob = 'n=%d: overrun_copy writes offsets %s, beyond the word boundary after the data (align(n) = %d)' % (n, sorted(k for k in wrote if k < 0 or k >= lim)[:6], lim)
+                            prob = ('n=%d: overrun_copy writes offsets %s, but align(%d) = %d: the two no longer use the same word size, so the test `align(n) <= out_size` in front of '
+                                    'every overrun_copy call lets it write behind the output buffer' % (n, sorted(k for k in wrote if k < 0 or k >= lim)[:6], n if n else 1, lim))
                             break
             if prob:
                 break
